@@ -104,6 +104,9 @@ type c13Case struct {
 	Rows       []c13Row   `json:"rows"`
 	RowWants   [][]string `json:"row_wants"`
 	StmtWants  []string   `json:"stmt_wants"`
+	// MoreFiles: further statement files of the same invocation (importers that take
+	// several files): the rows are spread one per file
+	MoreFiles map[string]string `json:"more_files,omitempty"`
 }
 
 func (cs *c13Case) content() string {
@@ -1027,7 +1030,11 @@ func c13Show(s string) string {
 // stray debug line does not stop the remaining checks).
 func c13One(drv *core.Driver, cs *c13Case) (fs []c13Finding, out *core.Outcome, runs int) {
 	content := cs.content()
-	drv.Files(map[string]string{cs.File: content})
+	files := map[string]string{cs.File: content}
+	for k, v := range cs.MoreFiles {
+		files[k] = v
+	}
+	drv.Files(files)
 	out = drv.Run(nil, cs.Args...)
 	runs++
 	ctx := func(msg string) string {
@@ -1187,6 +1194,27 @@ func c13Build(imp *c13Importer, v string, rows []c13Row) *c13Case {
 	return cs
 }
 
+// c13BuildSplit: one statement file per row, all given to one invocation.
+func c13BuildSplit(imp *c13Importer, v string, rows []c13Row) *c13Case {
+	cs := &c13Case{Imp: imp.Name, Var: v, File: "s0.csv", Account: imp.Account, Rows: append([]c13Row(nil), rows...), MoreFiles: map[string]string{}}
+	cs.Args = append([]string{"import", imp.Name}, imp.Args(v)...)
+	for i, r := range rows {
+		content, rw, sw := imp.Render(v, []c13Row{r})
+		// keep the row ids of the single statement (Render numbers rows from 0)
+		name := fmt.Sprintf("s%d.csv", i)
+		if i == 0 {
+			cs.ContentB64 = base64.StdEncoding.EncodeToString([]byte(content))
+			cs.Content = content
+		} else {
+			cs.MoreFiles[name] = content
+		}
+		cs.RowWants = append(cs.RowWants, rw...)
+		cs.StmtWants = append(cs.StmtWants, sw...)
+		cs.Args = append(cs.Args, name)
+	}
+	return cs
+}
+
 func c13Run(e *core.Env) {
 	drv := e.Driver()
 	maxRows := core.Pick(e, 2, 3)
@@ -1235,6 +1263,25 @@ func c13Run(e *core.Env) {
 							}
 							return false
 						})
+					}
+					if imp.Name == "com.wise" && len(rows) >= 2 {
+						// the same rows as one statement file per row in one invocation
+						sp := c13BuildSplit(imp, v, rows)
+						fs2, _, r2 := c13One(drv, sp)
+						_ = r2
+						e.Count("split_file_invocations")
+						for _, fd := range fs2 {
+							key := fd.Key + ":split-files"
+							e.Violation(key, fd.Detail, sp, func() bool {
+								fs3, _, _ := c13One(drv, sp)
+								for _, f3 := range fs3 {
+									if f3.Key+":split-files" == key {
+										return true
+									}
+								}
+								return false
+							})
+						}
 					}
 				})
 				if !done {
